@@ -138,6 +138,9 @@ def replay_crosshair(args):
 REPLAYERS = {"exercise": replay_exercise, "crosshair": replay_crosshair}
 
 
+SHARDABLE = True
+
+
 def run(chk, only=None):
     from yadism.input import compatibility
     from yadism.runner import Runner
@@ -151,7 +154,7 @@ def run(chk, only=None):
     chk.stub("Engine A: quadrature (conv.convolve_vector / conv.convolution) -> zeros, scale variations -> none, np.digitize -> documented meaning "
              "(the numbers are not the subject; mutation by eko/rich internals is outside)")
     # ---- Engine B ----
-    if only in (None, "ch"):
+    if only in (None, "ch") and chk.first:
         for name in CH_TARGETS:
             target = f"yv.ch.h_compat.{name}"
             r = chrun.crosshair_check(target, timeout=90 if chk.tier == "quick" else 600)
@@ -180,6 +183,8 @@ def run(chk, only=None):
             tgt = TARGET_SPELLINGS[target]
             obs = ["F2_total", "FL_charm"] if ci % 2 else ["F2_light", "XSHERANC_total"]
             cname = f"runner:{scheme}/NfFF={nfff}/target={tgt}/{proj}/TMC={tmc}"
+            if not chk.mine(cname):
+                continue
             with Ctx(chk.seed) as ctx, stubs.cf_stubs():
                 def body(scheme=scheme, nfff=nfff, tgt=tgt, proj=proj, tmc=tmc, obs=obs, ci=ci):
                     V = c06.sym_values(ctx)
